@@ -354,6 +354,23 @@ func C15(c *ev.Ctx) {
 			}
 		}
 	}
+	// the same case table on a 32-bit build of the primitives
+	if bin := filepath.Join(c.Bin, "prims386"); fileExists(bin) {
+		cf := filepath.Join(c.Scratch, "prims-cases.json")
+		cb, _ := json.Marshal(cases)
+		_ = os.WriteFile(cf, cb, 0644)
+		out, err, _ := runWithDeadline(exec.Command(bin, cf), 5*time.Minute)
+		switch {
+		case strings.Contains(out, "MISMATCH"):
+			c.Violation("put-get.32bit-build", "on a 32-bit build (GOARCH=386) of the same source: "+strings.TrimSpace(firstLines(out[strings.Index(out, "MISMATCH"):], 2)), nil)
+		case err != nil || !strings.Contains(out, "PRIMS386-DONE"):
+			c.Set("build_386", "driver did not run: "+firstLines(out, 2))
+		default:
+			c.Set("build_386", strings.TrimSpace(out))
+		}
+	} else {
+		c.Set("build_386", "not built")
+	}
 	if msg := primsConcurrent("enc", uint64(c.Seed), 8, c.Pick(40000, 400000)); msg != "" {
 		c.Violation("put-get.concurrent-callers", "with several goroutines encoding into private buffers at the same time: "+msg, nil)
 	}
